@@ -77,6 +77,8 @@ def row_ops(n):
         yield ["l", [n]]              # out of range: must be refused, creates no state
     for t in itertools.product([0, 1], repeat=n):
         yield ["m", list(t)]
+    if n:
+        yield ["lb", [(i + 1) % 2 for i in range(n)]]     # a mask spelled as a plain list of bools
 
 
 def pair_ops(n):
